@@ -650,3 +650,8 @@ def check(run, prog, tier):
                "%s() at line %s is reachable (path %s) after nodes were linked into the table without ->count having been brought up to date: the mapping keeps more nodes than it counts" % bad, f.file, bad[1] if bad else f.line, f.name,
                what="%s can raise an error with nodes linked that the mapping's count does not include" % f.name)
     run.need(npf >= 2, "functions that link mapping nodes and can raise (found %d)" % npf)
+
+    # ---- C01-q snprintf-family results compared with the buffer size
+    import rules.fitrule as fitrule
+    run.rule("C01-q", "every comparison of a snprintf()/vsnprintf() result with the size handed to the call: the side taken as 'fits' contains only results <= size - 1; a text of exactly `size` characters is truncated and must not be used as complete (path names, log lines, error messages)", 5)
+    fitrule.check(run, prog, "C01-q", lambda f: True, 5, 5, "the truncated text is used as if it were complete")
